@@ -682,6 +682,93 @@ func (p *c10) invalidNumerals(x *res, adapter string) {
 	}
 }
 
+// malformedValues: what the SDK types can express although it is no attribute value - a missing (nil) element, a
+// value without any type, with two types, NULL given as false - as an attribute, inside a list, inside a map, as an
+// expression attribute value and as a key. Whatever the answer is (refusing is the right one; the SDK v2 adapter
+// reads a missing member as NULL), it is no runtime fault, and the table still reads and writes afterwards.
+func (p *c10) malformedValues(x *res, adapter string) {
+	spec := mon.SpecHashRange("tbl10m")
+	for _, kind := range []string{"nil", "empty", "two-types", "null-false"} {
+		bad := val.Invalid(kind)
+		forms := []val.Item{
+			{"a": bad},
+			{"l": val.List(val.Str("x"), bad)},
+			{"m": val.Map(map[string]val.V{"k": bad})},
+			{"m": val.Map(map[string]val.V{"deep": val.List(val.Map(map[string]val.V{"n": bad}))})},
+		}
+		check := func(cl adapt.Client, what string, fi int, first adapt.Outcome, wit map[string]interface{}) {
+			reads := []adapt.Op{
+				{Kind: adapt.OpScan, Table: spec.Name, Filter: "v > :z", Values: val.Item{":z": val.Num("0")}},
+				{Kind: adapt.OpScan, Table: spec.Name, Filter: "attribute_exists(a) OR size(r) > :z OR l = :z OR m.k = :z", Values: val.Item{":z": val.Num("0")}},
+				{Kind: adapt.OpQuery, Table: spec.Name, KeyCnd: "h = :h", Values: val.Item{":h": val.Str("k")}},
+				{Kind: adapt.OpGet, Table: spec.Name, Key: val.Item{"h": val.Str("k"), "r": val.Str("good")}},
+				{Kind: adapt.OpGet, Table: spec.Name, Key: val.Item{"h": val.Str("k"), "r": val.Str("s")}},
+				{Kind: adapt.OpUpdate, Table: spec.Name, Key: val.Item{"h": val.Str("k"), "r": val.Str("s")}, Update: "SET w = :z", Values: val.Item{":z": val.Num("1")}},
+				{Kind: adapt.OpUpdate, Table: spec.Name, Key: val.Item{"h": val.Str("k"), "r": val.Str("good")}, Update: "SET w = :z", Values: val.Item{":z": val.Num("1")}},
+			}
+			for _, rd := range reads {
+				o := cl.Do(rd)
+				x.r.Evals++
+				if o.Class != adapt.ClsOK {
+					x.viol("malformed-value-breaks-the-table", fmt.Sprintf("%s/%s/%s/%s", adapter, kind, what, rd.Kind), fmt.Sprintf("[%s] after %s with a %s value (form %d, answered %s %s), %s on the table fails: %s %s", adapter, what, kind, fi, first.Class, first.Msg, rd.String(), o.Class, o.Msg), wit)
+					break
+				}
+				for _, it := range append(append([]val.Item{}, o.Items...), o.Item) {
+					for a, v := range it {
+						if strings.Contains(v.Canon(), string(val.KInvalid)) {
+							x.viol("malformed-value-stored", fmt.Sprintf("%s/%s/%s", adapter, kind, what), fmt.Sprintf("[%s] after %s with a %s value (form %d, answered %s), %s returns the attribute %s = %s, which is no attribute value", adapter, what, kind, fi, first.Class, rd.Kind, a, v.Canon()), wit)
+							return
+						}
+					}
+				}
+			}
+		}
+		for fi, form := range forms {
+			for _, via := range []string{"put", "update-value", "condition-value", "filter-value", "key"} {
+				cl, _, ds := freshClient(adapter, spec)
+				if ds != nil {
+					return
+				}
+				cl.Do(adapt.Op{Kind: adapt.OpPut, Table: spec.Name, Item: val.Item{"h": val.Str("k"), "r": val.Str("good"), "v": val.Num("5")}})
+				it := val.Item{"h": val.Str("k"), "r": val.Str("s")}
+				var first adapt.Op
+				var attr string
+				var bv val.V
+				for k, v := range form {
+					attr, bv = k, v
+				}
+				switch via {
+				case "put":
+					it[attr] = bv
+					first = adapt.Op{Kind: adapt.OpPut, Table: spec.Name, Item: it}
+				case "update-value":
+					first = adapt.Op{Kind: adapt.OpUpdate, Table: spec.Name, Key: it, Update: "SET " + attr + " = :b", Values: val.Item{":b": bv}}
+				case "condition-value":
+					it["w"] = val.Str("written")
+					first = adapt.Op{Kind: adapt.OpPut, Table: spec.Name, Item: it, Cond: attr + " <> :b", Values: val.Item{":b": bv}}
+				case "filter-value":
+					first = adapt.Op{Kind: adapt.OpScan, Table: spec.Name, Filter: "v <> :b", Values: val.Item{":b": bv}}
+				case "key":
+					if fi > 0 {
+						continue
+					}
+					first = adapt.Op{Kind: adapt.OpGet, Table: spec.Name, Key: val.Item{"h": val.Str("k"), "r": bad}}
+				}
+				o := cl.Do(first)
+				x.r.Evals++
+				x.fp(true, "%s|malformed|%s|%d|%s", adapter, kind, fi, via)
+				x.r.Counters["malformed_values:"+o.Class]++
+				wit := map[string]interface{}{"adapter": adapter, "kind": kind, "request": first, "outcome": o}
+				if o.Class == adapt.ClsRuntime {
+					x.viol("runtime-panic", "malformed-value/"+o.Site, fmt.Sprintf("[%s] %s with a %s value (form %d): runtime panic at %s: %s", adapter, via, kind, fi, o.Site, o.Msg), wit)
+					continue
+				}
+				check(cl, via, fi, o, wit)
+			}
+		}
+	}
+}
+
 func (p *c10) RunCase(ctx *runner.Ctx) runner.CaseResult {
 	x := newRes()
 	if c10Cache == nil {
@@ -689,6 +776,7 @@ func (p *c10) RunCase(ctx *runner.Ctx) runner.CaseResult {
 	}
 	if ctx.Case < 2 {
 		p.invalidNumerals(x, adapt.Adapters[ctx.Case])
+		p.malformedValues(x, adapt.Adapters[ctx.Case])
 	}
 	blocks := (len(c10Cache) + c10Block - 1) / c10Block
 	if ctx.Case < blocks {
